@@ -429,6 +429,11 @@ void body_io(void*) {
         if (j == k || !w->kind[k] || !w->kind[j]) continue;
         Item& y = w->items[j];
         if (it.channel != CH_VALUE || y.channel != CH_VALUE || it.stop_begin || y.stop_begin) continue;
+        // ties: equal due times submitted by the same producer (hence queued in that order) complete in submission order
+        if (w->kind[k] == 2 && w->kind[j] == 2 && w->due_lo[k] == w->due_lo[j] && k < j && it.producer == y.producer) {
+          KIT_CHECK(it.done_seq < y.done_seq, "c07.order", "%s timers %d and %d have the same due time and were submitted in that order by one thread, but %d completed first", w->ctx_name, k, j, j);
+          usim_probe("io timer tie pair checked");
+        }
         if (w->kind[k] == 2 && w->kind[j] == 2 && w->due_lo[k] < w->due_lo[j] && w->start_end_now[k] + slack < w->due_lo[j]) {
           KIT_CHECK(it.done_seq < y.done_seq, "c07.order", "%s timer %d (due earlier) completed after timer %d", w->ctx_name, k, j);
           usim_probe("io timer order pair checked");
